@@ -90,7 +90,7 @@ def run(ck):
     if not quick or os.environ.get("VERIF_GEN"):
         extra = corpus.generated(ck, "quick")
         ck.rng.shuffle(extra)
-        extra = extra[:12000]
+        extra = extra[:5000]
         ck.notes["generated_sources"] = len(extra)
     cl = corpus.classified(h, extra)
     srcs = [s for s, ok in cl]
@@ -108,12 +108,12 @@ def run(ck):
     descs = [descs[k] for k in sorted(descs)]
     ck.notes["mutation_descriptors"] = len(descs)
     bombs = [dict(d, depth=n) for d in stat["nest"] for n in stat["depths"]]
-    per = 30 if quick else 120
+    per = 30 if quick else 60
     rvecs = []
     for i, s in enumerate(srcs):
         ms = ck.rng.sample(descs, min(per, len(descs)))
         rvecs.append({"src": s, "langs": corpus.VARIANTS, "seed": ck.seed * 15485863 + i, "muts": ms,
-                      "retypes": stat["retypes"], "maxsub": 25 if quick else 200,
+                      "retypes": stat["retypes"], "maxsub": 25 if quick else 100,
                       "bombs": bombs if i % 200 == 0 else []})
     t0 = time.time()
     res = vlib.run_harness(h, "tjreal", rvecs, shards=12, timeout=1700)
